@@ -21,6 +21,8 @@ def main():
     rows = []
     for d in sorted(glob.glob(os.path.join(ROOT, 'seeded', '*'))):
         name = os.path.basename(d)
+        if not os.path.isdir(d):
+            continue
         if want and not any(name.startswith(w) for w in want):
             continue
         prop = name.split('_')[0]
@@ -38,6 +40,7 @@ def main():
         rows.append((name, res))
         print(name, res, flush=True)
     missed = [n for n, r in rows if isinstance(r, dict) and not any(x.startswith('exit=1') for x in r.values())]
+    missed += [n for n, r in rows if not isinstance(r, dict)]
     print('seeds:', len(rows), 'not detected:', missed)
     json.dump(rows, open(os.path.join(ROOT, 'seeded', 'LAST_RUN.json'), 'w'), indent=1)
     return 0
